@@ -14,9 +14,27 @@ def make(rng, tier):
         mode = r.choice(["whole", "whole", "random", "crlf", "bytes"]) if len(data) < 400 else r.choice(["whole", "random", "crlf"])
         segs = N.cut(r, data, mode)
         replies, final = N.spec_replies(reqs)
-        pipeline = r.choice(["all", "all", "one"])
+        pipeline = r.choice(["all", "all", "one", "overlap"])
         ops = ["conn c"]
-        if pipeline == "all" or mode != "whole":
+        if pipeline == "overlap":
+            # every segment completes one request and carries a strict prefix of the next; the reply to the completed request
+            # must arrive before the rest of the next one is sent
+            encs = [G.enc(N.req_frame(q)) for q in reqs]
+            segs, pending, nrecv = [], 0, 0
+            for j, (e, rp) in enumerate(zip(encs, replies)):
+                nxt = encs[j + 1] if j + 1 < len(encs) else b""
+                k = r.rng(1, len(nxt) - 1) if len(nxt) > 1 else 0
+                seg = e[pending:] + nxt[:k]
+                segs.append(seg)
+                ops.append("send c %s" % G.rawhex(seg))
+                ops.append("recv c %d 5000" % len(rp))
+                nrecv += 1
+                pending = k
+            ops.append("half c")
+            ops.append("recv c eof 5000")
+            nrecv += 1
+            mode = "overlap"
+        elif pipeline == "all" or mode != "whole":
             for s in segs:
                 ops.append("send c %s %d" % (G.rawhex(s), 1 if len(segs) > 1 else 0))
             ops.append("half c")
@@ -89,7 +107,7 @@ def main(tier, seed):
             continue
         parts, status = received(sc)
         want = sc.replies
-        if sc.pipeline == "one" and sc.mode == "whole":
+        if (sc.pipeline == "one" and sc.mode == "whole") or sc.pipeline == "overlap":
             got_ok = all(p[0] == "ok" and p[2] == G.hexs(w) for p, w in zip(parts, want)) and parts[-1][0] == "eof" and parts[-1][1] == 0
             got_all = "|".join(p[2] for p in parts[:-1])
             want_all = "|".join(G.hexs(w) for w in want)
@@ -124,7 +142,8 @@ def main(tier, seed):
         "trusted_base": TRUSTED,
         "evaluations": len(scs), "distinct_nontrivial": len(set((tuple(q[0] for q in sc.reqs), sc.mode, sc.pipeline) for sc in scs)),
         "rule": "request sequences of 1-10 SET/GET/DEL (multi-key DEL with repeats, values with CR/LF/NUL/0xFF and up to 70000 bytes) "
-                "sent over TCP whole / at random cuts / cut inside CRLFs / one byte per write, all at once or one at a time; distinct "
+                "sent over TCP whole / at random cuts / cut inside CRLFs / one byte per write, all at once, one at a time, or overlapping "
+                "(each segment completes one request and carries a prefix of the next; its reply must arrive before the rest is sent); distinct "
                 "= (command kinds, segmentation, pipelining)",
         "modes": modes,
         "samples": [{"requests": [str(q)[:60] for q in scs[0].reqs], "ops": scs[0].ops[:8], "out": (scs[0].out or [])[:8]}],
